@@ -104,6 +104,22 @@ CHECKS = {
             'association results are compared as multisets',
             'deterministic simulation: seeded operation/fault histories '
             'against an executable reference model'),
+    'C15': ('store', 'exploration',
+            'seeded histories of Iter calls on one connection x '
+            'use_pull_operations x server pull capability (enabled, '
+            'disabled, toggled) x MaxObjectCount x consumption pattern '
+            '(exhaust, close, drop, alternate) x call-level faults (CIM '
+            'error, connection error, timeout, lost reply) in direct and '
+            'wire worlds; equality with the traditional result on a fresh '
+            'connection, documented errors, sticky-knowledge and context-'
+            'leak oracles',
+            'parameters existing only on the traditional side are left at '
+            'None; results compared as multisets modulo host; contexts whose '
+            'creating or final reply was lost are not counted as leaks; two '
+            'open known findings (sticky pull flag) are reported as '
+            'KNOWN-FINDING',
+            'deterministic simulation: seeded configuration/history/fault '
+            'search with a reference execution on a fresh connection'),
 }
 
 ENGINES = [
